@@ -44,3 +44,20 @@ Definition go_slice_set (l : list N) (i : Z) (v : N) : result (list N) :=
 (* make([]uint64, n) with an int length: a negative length panics *)
 Definition go_make_int (n : Z) : result (list N) :=
   if (n <? 0)%Z then Panic else Ok (repeat 0 (Z.to_nat n)).
+
+(* for i, x := range l { body } with an int index; the body can fail *)
+Fixpoint range_r {A S : Type} (body : Z -> A -> S -> result S) (i : Z) (l : list A) (s : S) : result S :=
+  match l with
+  | [] => Ok s
+  | x :: l' => do s' <- body i x s; range_r body (i + 1)%Z l' s'
+  end.
+
+(* l[i] on a []uint64 with an int index *)
+Definition go_index (l : list N) (i : Z) : result N :=
+  if (i <? 0)%Z then Panic
+  else match nth_error l (Z.to_nat i) with Some v => Ok v | None => Panic end.
+
+(* b[lo:hi] on a byte slice whose capacity is taken to be its length *)
+Definition go_slice (b : bytes) (lo hi : Z) : result bytes :=
+  if (lo <? 0)%Z || (hi <? lo)%Z || (Z.of_nat (length b) <? hi)%Z then Panic
+  else Ok (firstn (Z.to_nat (hi - lo)) (skipn (Z.to_nat lo) b)).
